@@ -164,7 +164,28 @@ func toDoc(obj runtime.Object) map[string]any {
 	if err != nil {
 		panic("kube model: cannot convert object: " + err.Error())
 	}
+	dropNulls(m)
 	return m
+}
+
+// dropNulls removes null-valued object members: a typed object sent by a
+// client carries "field": null for nil slices and maps without omitempty,
+// which the API server reads back as absent.
+func dropNulls(m map[string]any) {
+	for k, v := range m {
+		switch x := v.(type) {
+		case nil:
+			delete(m, k)
+		case map[string]any:
+			dropNulls(x)
+		case []any:
+			for _, e := range x {
+				if em, ok := e.(map[string]any); ok {
+					dropNulls(em)
+				}
+			}
+		}
+	}
 }
 
 func fromDoc(doc map[string]any, obj runtime.Object) {
